@@ -34,6 +34,11 @@ TARGETED = [
     [('agg', [('s', ('sum', col('a')))], [(None, col('k'))]), ('total', col('s'), 'running'), ('sort', [col('k')], None)],
     [('agg', [(None, ('count', None))], [(None, col('k')), (None, col('g'))]), ('where', ('cmp', 'gt', col('_count'), lit(0))), ('limit', 2), ('sort', [col('k')], None)],
     [('agg', [(None, ('count', None))], [(None, col('s'))]), ('total', col('_count'), None), ('fields', 'except', ['s']), ('sort', [col('_total')], 'desc')],
+    # objects whose key sets are not contained in one another, as group keys with tied counts and as sort keys:
+    # only a total, antisymmetric order on objects settles these rows
+    [('agg', [(None, ('count', None))], [(None, col('ob2'))])],
+    [('agg', [(None, ('count', None))], [(None, col('ob2'))]), ('where', ('cmp', 'gt', col('_count'), lit(0)))],
+    [('sort', [col('ob2')], None), ('fields', 'only', ['ob2'])],
     # records as they come, and sorted records: the column order of the text modes
     [],
     [('sort', [col('id')], 'desc')],
@@ -50,7 +55,8 @@ def explore(ctx):
     for i, tail in enumerate(TARGETED):
         for rep in range(3 if quick else 12):
             rows = gen.gen_rows(rng, rng.randint(5, 30))
-            for r in rows:
+            for j, r in enumerate(rows):
+                r['ob2'] = [{'a': 1}, {'b': 1}, {'c': 1}, {'d': 1}, {'a': 1, 'b': 2}, {'b': 1, 'c': 1}, {'d': 0}][j % 7]
                 r['obj'] = {'p': rng.randint(0, 2), 'q': rng.choice(['x', 'y']), 'r': [1, {'z': rng.randint(0, 1), 'y': 2}]}
                 if rng.random() < 0.7:
                     for nm in rng.sample(['Host', 'host', 'HOST', 'hOst', 'Ünit', 'ünit'], rng.randint(2, 4)):
